@@ -99,8 +99,22 @@ FxShl(x, k) == IShl(x, k)
 RECURSIVE FxPow(_, _)
 FxPow(x, k) == IF k = 0 THEN FxOne ELSE IF k = 1 THEN x
                ELSE LET h == FxPow(x, k \div 2) h2 == FxSqr(h) IN IF k % 2 = 0 THEN h2 ELSE FxMul(h2, x)
-(* general quotient, slow (bitwise long division): model constants only *)
-FxDiv(x, y) == IMk(x[1] * y[1], Div(ShiftLimbs(x[2], FL), y[2]))
+(* general quotient by bitwise long division: exact floor, slow - kept as the reference for FxDiv *)
+FxDivSlow(x, y) == IMk(x[1] * y[1], Div(ShiftLimbs(x[2], FL), y[2]))
+
+(* 2^k * x for any integer k (floor of the magnitude for k < 0) *)
+FxScale2(x, k) == IF k >= 0 THEN IShl(x, k) ELSE IShr(x, -k)
+(* reciprocal of d > 0 by Newton iteration on the normalised divisor d' = d * 2^(FBITS - n) in [1/2, 1):
+   x0 = 48/17 - 32/17 d' (error <= 1/17), x <- x (2 - d' x) six times (error < 2^-100), then rescaled *)
+RECURSIVE NewtonRecip(_, _, _)
+NewtonRecip(dn, x, k) == IF k = 0 THEN x ELSE NewtonRecip(dn, FxMul(x, FxSub(FxInt(2), FxMul(dn, x))), k - 1)
+FxRecipPos(d) == LET n == BitLen(d[2])
+                     dn == FxScale2(d, FBITS - n)
+                     x0 == FxSub(FxRat(48, 17), FxMul(FxRat(32, 17), dn))
+                 IN FxScale2(NewtonRecip(dn, x0, 6), FBITS - n)
+(* general quotient, relative error below 2^-96 *)
+FxDiv(x, y) == IF x[1] = 0 THEN IZero
+               ELSE LET q == FxMul(IAbs(x), FxRecipPos(IAbs(y))) IN IMk(x[1] * y[1], q[2])
 
 FxCmp(x, y) == ICmp(x, y)
 FxLt(x, y) == ILt(x, y)
